@@ -30,9 +30,10 @@ Record mcfg := mk_mcfg {
 Definition lua_cfg : mcfg :=
   mk_mcfg (fun d => if d =? 0 then None else Some (d - 1)) LUA_MAXCCALLS LUA_MAXCAPTURES
           c_isalpha c_iscntrl c_isdigit c_isgraph c_islower c_ispunct c_isspace c_isupper c_isalnum c_isxdigit false.
+(* after ec5206d the port takes '\\0' as the previous byte at position 0, like Lua: the flag is false *)
 Definition nl_cfg : mcfg :=
   mk_mcfg (fun d => if 0 <? d - 1 then Some (d - 1) else None) MAX_MATCH_CALLS NL_MAXCAPTURES
-          sc_isalpha sc_iscntrl sc_isdigit sc_isgraph sc_islower sc_ispunct sc_isspace sc_isupper sc_isalnum sc_isxdigit true.
+          sc_isalpha sc_iscntrl sc_isdigit sc_isgraph sc_islower sc_ispunct sc_isspace sc_isupper sc_isalnum sc_isxdigit false.
 
 Fixpoint bytes_eqb (a b : bytes) : bool :=
   match a, b with
